@@ -85,3 +85,24 @@ int fx_pair_bad(const uint8_t *buf, size_t buf_size) {
 	cur += used;
 	return (fx_dec(cur, avail, &used));
 }
+
+/* stale end pointer */
+size_t fx_end_ok(uint8_t *buf, size_t buf_size) {
+	uint8_t *end; size_t n = 0;
+	while (buf_size > 1 && 0 != buf[0]) {
+		end = (buf + buf_size);
+		memmove(buf, (buf + 1), (size_t)(end - (buf + 1)));
+		buf_size --; n ++;
+	}
+	return (n);
+}
+/* violation: the end is computed once, the loop shrinks the data */
+size_t fx_end_bad(uint8_t *buf, size_t buf_size) {
+	uint8_t *end; size_t n = 0;
+	end = (buf + buf_size);
+	while (buf_size > 1 && 0 != buf[0]) {
+		memmove(buf, (buf + 1), (size_t)(end - (buf + 1)));
+		buf_size --; n ++;
+	}
+	return (n);
+}
